@@ -11,6 +11,7 @@ import ClairModel.Proofs.RpmHeader
 import ClairModel.Proofs.RpmDb
 import ClairModel.Proofs.RpmFiles
 import ClairModel.Proofs.DockerLex
+import ClairModel.Proofs.TarLinks
 import ClairModel.Gen.Tar
 
 namespace ClairModel.Props.C06
@@ -103,6 +104,27 @@ theorem tar_constants_match_source :
     TarSeg.version00 = Gen.Tar.version ∧ TarSeg.prependFlags = Gen.Tar.prependFlags ∧ TarSeg.dataFlags = Gen.Tar.dataFlags ∧
     Gen.Tar.rejectsNegativeSize = true ∧ Gen.Tar.probesLastContentByte = true := by
   decide
+
+/-! ## opening a member through links (pkg/tarfs/tarfs.go `open`) -/
+
+/-- Time: opening a member (a definition Lean accepts without fuel: both loops
+    count their hops against the number of inodes) looks names up at most
+    2·(members + 1) + 4 times, whatever the links say: a chain of symbolic links
+    is given up after one hop per inode, a chain of hard links likewise. -/
+theorem tarfs_open_lookups_linear (a : TarLinks.Archive) (i : Nat) :
+    (TarLinks.openMember a i).2 ≤ 2 * (a.length + 1) + 4 := by
+  have := TarLinks.openAt_lookups a i 0
+  unfold TarLinks.openMember
+  simp only [TarLinks.inodes] at this ⊢
+  omega
+
+/-- two symbolic links naming each other, and a hard link naming itself: both
+    are reported as invalid instead of being followed forever (daa67834) -/
+theorem tarfs_open_cycles_rejected :
+    (TarLinks.openMember [.sym 1, .sym 0] 0).1 = .invalid ∧ (TarLinks.openMember [.hard 0] 0).1 = .invalid := by
+  constructor
+  · simp [TarLinks.openMember, TarLinks.openAt, TarLinks.getInode, TarLinks.inodes]
+  · simp [TarLinks.openMember, TarLinks.openAt, TarLinks.hardLoop, TarLinks.getInode, TarLinks.inodes]
 
 /-! ## rpm header (rpm/internal/rpm/header.go) and Info.Load (rpm/native_db.go) -/
 
